@@ -155,11 +155,11 @@ PROJECTIONS = {
     "feemult": proj_by_op({"seal": ("fm",), "fm": ("all",), "next": ("fm",), "block": ("fm",)}, default=("none",)),
     "coins_after_batch": proj_by_op({"batch": ("coins", "extra"), "genesis": ("coins",), "fab": ("coins",)}, default=("none",)),
     "batch_all": proj_by_op({"batch": ("coins", "counts", "extra", "fp", "tips", "fm", "ds", "stakes", "txs"), "block": ("status",)}, default=("none",)),
-    "fees": proj_by_op({"batch": ("fp", "tips"), "seal": ("fp", "tips", "coins"), "w": ("all",)}, default=("none",)),
+    "fees": proj_by_op({"batch": ("fp", "tips"), "seal": ("fp", "tips", "coins"), "w": ("all",), "txlen": ("all",)}, default=("none",)),
     "settlement": proj_by_op({"seal": ("coins", "pools", "pools_n")}, default=("none",)),
     "pools": proj_by_op({"seal": ("pools", "pools_n"), "next": ("pools", "pools_n")}, default=("none",)),
-    "stakes": proj_by_op({"batch": ("stakes",), "next": ("stakes",), "block": ("stakes",), "confirm": ("all",)}, default=("none",)),
-    "speed": proj_by_op({"batch": ("ds",)}, default=("none",)),
+    "stakes": proj_by_op({"batch": ("stakes",), "next": ("stakes",), "block": ("stakes",), "confirm": ("all",), "sdoc": ("all",)}, default=("none",)),
+    "speed": proj_by_op({"batch": ("ds",), "powd": ("all",)}, default=("none",)),
     "chain": proj_by_op({"next": ("all",), "block": ("all",), "restore": ("all",), "mt": ("all",), "mp": ("all",), "dt": ("all",), "dp": ("all",)}, default=("none",)),
     "blocks": proj_by_op({"block": ("status",)}, default=("none",)),
     "restore": proj_by_op({"restore": ("all",), "next": ("all",)}, default=("none",)),
@@ -902,6 +902,13 @@ def oracle_settlement(ops, impl, model):
                         a0, a1 = c0.get(cid), c1.get(cid)
                         delta_coins += (a1["value"] if a1 and a1["denom"] == den else 0) - (a0["value"] if a0 and a0["denom"] == den else 0)
                 delta_res = r1[side] - r0[side]
+                # what the requests bring in on this side; beyond a u128 the request total and the reserve saturate
+                # (melmint.rs: saturating sums) - such a block needs more than 2^127 of one denomination in existence,
+                # which the supply premise of the properties excludes (DESIGN section 8, ninth round)
+                inflow = sum(a0["value"] for tx in rtx for idx in (0, 1)
+                             for a0 in [c0.get("%s:%d" % (tx["hash"], idx))] if a0 and a0["denom"] == den)
+                if inflow + r0[side] >= 2 ** 128:
+                    continue
                 if not (-delta_coins - len(rtx) <= delta_res <= -delta_coins):
                     leg = legacy(int(pre["net"]), h, 978392) and any(x["kind"] == K_DEP for x in rtx)
                     out.append({"line": i, "op": " ".join(t)[:500], "opkind": "seal", "legacy": "deposit-window" if leg else "no",
